@@ -73,7 +73,12 @@ def harness(L, K, nobs, max_pre, max_to, log=False, printer=False, onstart=False
             if printed != exp:
                 fails = ["PrintWorker printed %s, expected %s" % (printed, exp)]
         if not fails:
-            return {"status": "ok", "detections": len(want), "schedule_len": len(s.log)}
+            out = {"status": "ok", "detections": len(want), "schedule_len": len(s.log)}
+            if __import__("zlib").crc32(bytes(e.trace)) % 61 == 0:
+                mm = e.model()
+                if mm is not None:
+                    out["instance"] = {"windows": tok.stream_str(thr.bits_from_model(mm, K)), "schedule": compact([list(x) for x in s.log])}
+            return out
         m = e.model()
         return {"status": "cex", "failing": fails[:2], "cex": mk(m, meta, s)}
     return path
